@@ -65,6 +65,7 @@ def check_tile_distinct(case, rec):
     check_tile(case, rec, True)
 
 
+SHRINK = {'tile', 'tile-x'}
 CHECKS = {'tile': check_tile, 'tile-x': check_tile_distinct}
 
 
